@@ -43,6 +43,7 @@ type profile struct {
 	tailBias                                                                   bool
 	roReopen                                                                   int // percent of reopens that are read-only sessions
 	every                                                                      int
+	foreign                                                                    int
 }
 
 var profiles = map[string]profile{
@@ -65,9 +66,9 @@ var profiles = map[string]profile{
 	"versions": {name: "versions", pub: 40, del: 22, delmulti: 4, gc: 2, reopen: 30,
 		minOps: 10, maxOps: 40, smallRoll: 85, rmIdx: 15, tools: 45},
 	"index": {name: "index", pub: 42, del: 18, delmulti: 4, trim: 3, gc: 3, clock: 2, reopen: 26,
-		minOps: 10, maxOps: 36, smallRoll: 85, rmIdx: 0, tools: 10, roReopen: 0},
+		minOps: 10, maxOps: 36, smallRoll: 85, rmIdx: 20, tools: 10, roReopen: 0},
 	"format": {name: "format", pub: 50, del: 15, delmulti: 3, gc: 2, sync: 2, reopen: 20,
-		minOps: 8, maxOps: 30, smallRoll: 70, rmIdx: 25, tools: 15, bigVals: true},
+		minOps: 8, maxOps: 30, smallRoll: 70, rmIdx: 25, tools: 15, bigVals: true, foreign: 8},
 	"protocol": {name: "protocol", pub: 40, del: 30, delmulti: 6, sync: 6, reopen: 14, gc: 1,
 		minOps: 6, maxOps: 16, smallRoll: 95, rmIdx: 10, tools: 30, tailBias: true},
 }
@@ -455,7 +456,7 @@ func (g *genState) genReopen() Op {
 func (g *genState) genOp() Op {
 	rng := g.rng
 	p := g.p
-	switch rng.Pick(p.pub, p.del, p.delmulti, p.trim, p.cmp, p.compact, p.gc, p.clock, p.sync, p.reopen) {
+	switch rng.Pick(p.pub, p.del, p.delmulti, p.trim, p.cmp, p.compact, p.gc, p.clock, p.sync, p.reopen, p.foreign) {
 	case 0:
 		return g.genPub()
 	case 1:
@@ -481,6 +482,22 @@ func (g *genState) genOp() Op {
 		return Op{K: "clock", A: d}
 	case 8:
 		return Op{K: "sync"}
+	case 10:
+		op := g.genReopen()
+		op.K, op.RmIdx, op.Tools = "foreign", nil, nil
+		op.A = int64(rng.Range(1, 2))
+		op.B = int64(rng.Pick(35, 65))
+		op.C = int64(rng.Pick(90, 10))
+		op.Open.Eager = false
+		for i, n := 0, rng.Range(1, 5); i < n; i++ {
+			m := g.genMsg()
+			m.Junk = 0
+			if m.TMode == 2 {
+				m.TMode, m.TV = 0, 1
+			}
+			op.Msgs = append(op.Msgs, m)
+		}
+		return op
 	default:
 		return g.genReopen()
 	}
